@@ -92,10 +92,18 @@ func marshalMultipartMessageBody(proto int, withOrigDgram bool, data []byte, ext
 		b[4+dataLen+2] ^= byte(s)
 		b[4+dataLen+3] ^= byte(s >> 8)
 		if withOrigDgram {
+			// The length attribute is a single octet counting
+			// 32-bit (ICMPv4) or 64-bit (ICMPv6) words.
 			switch proto {
 			case iana.ProtocolICMP:
+				if dataLen/4 > 0xff {
+					return nil, errInvalidBody
+				}
 				b[1] = byte(dataLen / 4)
 			case iana.ProtocolIPv6ICMP:
+				if dataLen/8 > 0xff {
+					return nil, errInvalidBody
+				}
 				b[0] = byte(dataLen / 8)
 			}
 		}
